@@ -1,4 +1,4 @@
-import LexVerif.Proof.ParseNumberC11Trunc
+import LexVerif.Proof.ParseNumberC11Prefix
 /-!
 # C11 — partial and complete parsers agree (float syntax layer)
 
@@ -11,7 +11,16 @@ hypothesis says otherwise.
 * `complete_of_partial` (⇐): no hypothesis.
 * `partial_of_complete_number`, `partial_of_complete_zero` (⇒ for numbers / the empty case): no hypothesis.
 * `partial_of_complete` (⇒): under `NoShadow`; `shadow_disagree` shows the hypothesis is exact.
+* `noShadow_syntactic`, `complete_iff_partial_syntactic`: syntactic sufficient condition (no separator byte,
+  mantissa digits required, special strings do not start with a digit / the decimal point).
 * `complete_iff_partial_full` is FALSE: `not_complete_iff_partial_full` (witnesses below).
+
+(B) `partial s = ok (p, n) ∧ n > 0 → complete (s.take n) = ok p`
+* `partial_prefix_full` is FALSE: `not_partial_prefix_full`, three witness classes.
+* `partial_prefix_contiguous` (+ `_number`, `_special`, `partial_prefix_noformat`, `partial_prefix_model`): proved for
+  every release build without a digit-separator byte (no `format` feature, or a `format` build whose format has no
+  separator — base prefix/suffix and all syntax flags allowed) when mantissa digits are required; numbers
+  unconditionally, specials under `SpecialHeadsOK`.
 -/
 namespace LexVerif.Props.C11
 open LexVerif LexVerif.Model LexVerif.Spec
@@ -299,20 +308,22 @@ theorem not_partial_prefix_full : ¬ partial_prefix_full := by
     witness_B_radix24_syntax.2] at this
   cases this
 
-/-! ## (B) proved part: truncation of the phases of `parse_number` (no `format` feature, release build)
+/-! ## (B) proved part 1: truncation of the phases of `parse_number`
 
+Setting: release build, no digit-separator byte (`Rel c`, `c.bytesContiguous`): the build without the `format`
+feature and every `format` build whose format has no separator (base prefix/suffix, all syntax flags allowed).
 `trunc n b` cuts the buffer after `n` bytes. Each phase that returns with its cursor at `i ≤ n` returns the same
 result on the truncated buffer (bytes at positions `≥ i` are inspected only to decide to stop). -/
 
-/-- integer, fraction and exponent phase commute with truncation at or beyond their final cursor; the cursor only
-moves forward and stays inside the buffer. (The digit loops `parse_digits`, `try_parse_8digits`, `parse_8digits` and
-`parse_sign!` are `parseDigits_trunc`, `tryParse8_trunc`, `parse8Digits_trunc`, `parseSign_trunc` in
-`Proof/ParseNumberC11Trunc.lean`.) -/
-theorem partial_prefix_phases_partial (c : Cfg) (o : POpts) (hf : c.feats.format = false) (hd : c.debug = false)
+/-- integer (with base prefix), fraction and exponent phase commute with truncation at or beyond their final cursor;
+the cursor only moves forward and stays inside the buffer. (The digit loops, `parse_sign!`, prefix and suffix are
+`parseDigits_trunc`, `tryParse8_trunc`, `parse8Digits_trunc`, `parseSign_trunc`, `prefixPhase_trunc`,
+`suffixPhase_trunc` in `Proof/ParseNumberC11Trunc.lean`.) -/
+theorem partial_prefix_phases (c : Cfg) (o : POpts) (hc : Proof.PNTotal.Rel c) (hb : c.bytesContiguous = true)
     (b : Bytes) (hv : C12.Bytes.Valid b) :
     (∀ ip, integerPhase c b = .ok ip →
       b.index ≤ ip.byte.index ∧ ip.byte.index ≤ b.slc.length ∧
-      ∀ n, ip.byte.index ≤ n → integerPhase c (trunc n b) = .ok { ip with start := trunc n b, byte := trunc n ip.byte }) ∧
+      ∀ n, ip.byte.index ≤ n → integerPhase c (trunc n b) = .ok { ip with start := trunc n ip.start, byte := trunc n ip.byte }) ∧
     (∀ m fp, fractionPhase c o b m = .ok fp →
       b.index ≤ fp.byte.index ∧ fp.byte.index ≤ b.slc.length ∧
       ∀ n, fp.byte.index ≤ n → fractionPhase c o (trunc n b) m = .ok { fp with byte := trunc n fp.byte }) ∧
@@ -321,20 +332,17 @@ theorem partial_prefix_phases_partial (c : Cfg) (o : POpts) (hf : c.feats.format
       ∀ n, ep.byte.index ≤ n → exponentPhase c true (trunc n b) fr ex = .ok { ep with byte := trunc n ep.byte }) := by
   refine ⟨?_, ?_, ?_⟩
   · intro ip h
-    obtain ⟨_, e2, e3, e4, _, _, e7⟩ := integerPhase_trunc hf hd b ip hv h
-    have hs : ip.byte.slc = b.slc := by rw [e2]; rfl
-    exact ⟨e3, by have : ip.byte.index ≤ ip.byte.slc.length := e4
-                  rw [hs] at this; exact this, e7⟩
+    obtain ⟨_, e2, _, e4, e5, e6, _, _, e9⟩ := integerPhase_trunc hc hb b ip hv h
+    exact ⟨by omega, by have : ip.byte.index ≤ ip.byte.slc.length := e6
+                        rw [e4] at this; exact this, e9⟩
   · intro m fp h
-    obtain ⟨e1, e2, e3, _, e5⟩ := fractionPhase_trunc hf hd o b m fp hv h
-    have hs : fp.byte.slc = b.slc := by rw [e1]; rfl
+    obtain ⟨e1, e2, e3, _, _, _, e5⟩ := fractionPhase_trunc hc hb o b m fp hv h
     exact ⟨e2, by have : fp.byte.index ≤ fp.byte.slc.length := e3
-                  rw [hs] at this; exact this, e5⟩
+                  rw [e1] at this; exact this, e5⟩
   · intro fr ex ep hlt h
-    obtain ⟨e1, _, e3, e4, e5⟩ := exponentPhase_trunc hf hd true b fr ex ep hv (fun _ => hlt) h
-    have hs : ep.byte.slc = b.slc := by rw [e1]; rfl
+    obtain ⟨e1, _, e3, e4, e5⟩ := exponentPhase_trunc hc hb true b fr ex ep hv (fun _ => hlt) h
     exact ⟨e4 rfl, by have : ep.byte.index ≤ ep.byte.slc.length := e3
-                      rw [hs] at this; exact this, e5⟩
+                      rw [e1] at this; exact this, e5⟩
 
 /-- non-vacuity: "12.5e3x" — the three phases succeed -/
 example : (∃ ip, integerPhase ⟨{}, Format.standard, false⟩ (Bytes.new [49, 50, 46, 53, 101, 51, 120]) = .ok ip ∧
@@ -345,47 +353,239 @@ example : (∃ ip, integerPhase ⟨{}, Format.standard, false⟩ (Bytes.new [49,
       (some [53]) (-1) = .ok ep ∧ ep.byte.index = 6) :=
   ⟨⟨_, rfl, rfl⟩, ⟨_, rfl, rfl⟩, ⟨_, rfl, rfl⟩⟩
 
-/-! ## (B) remaining targets (not proved) -/
+/-! ## (A) syntactic sufficient condition for `NoShadow` -/
 
-/-- missing step 1: the many-digits re-parse. Needed: `skipZeros` from `ip.start` stops at or before the first byte
-that is not '0' (`parseDigits_stop`: the byte the digit loops stop at is not a digit, hence not '0' when `radix ≥ 1`),
-so it commutes with truncation; everything else in `manyDigitsPhase` reads only the stored slices. -/
-def manyDigitsPhase_trunc_goal : Prop :=
-  ∀ (c : Cfg) (o : POpts) (neg : Bool) (ip : IntPart) (fp : FracPart) (ep : ExpPart) (nd step : Nat) (e0 : Int)
-    (endIdx n : Nat) (r : Number × Nat),
-    c.feats.format = false → c.debug = false → 2 ≤ c.mantissaRadix → C12.Bytes.Valid ip.start →
-    (∀ b, integerPhase c b = .ok ip → fractionPhase c o ip.byte ip.mantissa = .ok fp → fp.byte.index ≤ n →
-      manyDigitsPhase c o neg ip fp ep nd step e0 endIdx = .ok r →
-      manyDigitsPhase c o neg { ip with start := trunc n ip.start, byte := trunc n ip.byte }
-        { fp with byte := trunc n fp.byte } { ep with byte := trunc n ep.byte } nd step e0 endIdx = .ok r)
+/-- no digit-separator byte, mantissa digits required, and every special string is non-empty with a
+first byte that (in either case) is neither a mantissa digit nor the decimal point ⇒ nothing is shadowed.
+Any feature set, any other flags (base suffix, sign/exponent flags …), debug or release. -/
+theorem noShadow_syntactic (c : Cfg) (o : POpts) (s : List Nat) (fv : Bool)
+    (hb : c.bytesContiguous = true) (hr : 1 ≤ c.mantissaRadix) (hm : c.requiredMantissaDigits = true)
+    (hrad : c.feats.powerOfTwo = false → c.mantissaRadix ≤ 10) (hh : SpecialHeadsOK c o) : NoShadow c o s fv :=
+  noShadow_of_heads hb o s fv hh hrad hr hm
 
-/-- missing step 2: composition through `parse_number` (uses the phase lemmas above, `manyDigitsPhase_trunc_goal`, and
-`first_trunc` for the exponent-character test) -/
-def parseNumber_trunc_goal : Prop :=
-  ∀ (c : Cfg) (o : POpts) (b : Bytes) (neg : Bool) (r : Number) (count : Nat),
-    c.feats.format = false → c.debug = false → 2 ≤ c.mantissaRadix → C12.Bytes.Valid b →
-    parseNumber c true o b neg = .ok (r, count) →
-    b.index < count ∧ count ≤ b.slc.length ∧
-    ∀ n, count ≤ n → parseNumber c false o (trunc n b) neg = .ok (r, count)
+/-- C11 (A) under the syntactic condition -/
+theorem complete_iff_partial_syntactic (c : Cfg) (o : POpts) (s : List Nat) (p : Parsed)
+    (hb : c.bytesContiguous = true) (hr : 1 ≤ c.mantissaRadix) (hm : c.requiredMantissaDigits = true)
+    (hrad : c.feats.powerOfTwo = false → c.mantissaRadix ≤ 10) (hh : SpecialHeadsOK c o) :
+    parseFloatSyntax c o false s = .ok p ↔
+      (∃ q, parseFloatSyntax c o true s = .ok q ∧
+        match q, p with
+        | .zero n, .zero m => n = s.length ∧ m = n
+        | .number x n, .number y m => x = y ∧ n = s.length ∧ m = n
+        | .special a sa n, .special a' sa' m => a = a' ∧ sa = sa' ∧ n = s.length ∧ m = n
+        | _, _ => False) :=
+  complete_iff_partial c o s p (noShadow_syntactic c o s true hb hr hm hrad hh)
 
-/-- target, number case: no `format` feature, release build, every input and options -/
-def partial_prefix_noformat_number : Prop :=
-  ∀ (c : Cfg) (o : POpts) (s : List Nat) (x : Number) (cnt : Nat),
-    c.feats.format = false → c.debug = false → 2 ≤ c.mantissaRadix →
-    parseFloatSyntax c o true s = .ok (.number x cnt) →
-    parseFloatSyntax c o false (s.take cnt) = .ok (.number x cnt)
+/-- non-vacuity: the hypotheses hold for STANDARD (no `format`) and for a `format`-feature build with a base suffix -/
+example : (⟨{}, Format.standard, false⟩ : Cfg).bytesContiguous = true ∧ (⟨{}, Format.standard, false⟩ : Cfg).basePrefix = 0 ∧
+    (⟨{}, Format.standard, false⟩ : Cfg).requiredMantissaDigits = true ∧
+    (⟨{ radix := true, powerOfTwo := true, format := true }, ⟨0xa02106800000000000000000000000c⟩, false⟩ : Cfg).bytesContiguous = true ∧
+    (⟨{ radix := true, powerOfTwo := true, format := true }, ⟨0xa02106800000000000000000000000c⟩, false⟩ : Cfg).basePrefix = 0 ∧
+    (⟨{ radix := true, powerOfTwo := true, format := true }, ⟨0xa02106800000000000000000000000c⟩, false⟩ : Cfg).requiredMantissaDigits = true := by
+  decide +kernel
 
-/-- target, special case: needs the exclusion of class (iii) — the first byte of every special string (either case) is
-neither a mantissa digit nor the decimal point, so `parse_number` fails on the prefix too (false without it:
-`witness_B_radix24_nan`) -/
-def partial_prefix_noformat_special : Prop :=
-  ∀ (c : Cfg) (o : POpts) (s : List Nat) (sp : Special) (neg : Bool) (cnt : Nat),
-    c.feats.format = false → c.debug = false → 2 ≤ c.mantissaRadix →
-    (c.feats.powerOfTwo = false → c.mantissaRadix ≤ 10) →
-    (∀ str, (o.nan = some str ∨ o.inf = some str ∨ o.infinity = some str) →
+/-- the key lemma behind it: `parse_number` fails on a byte that is neither digit nor decimal point -/
+theorem parseNumber_fails_on_nondigit (c : Cfg) (p : Bool) (o : POpts) (b : Bytes) (neg fv : Bool) (x : Nat)
+    (hb : c.bytesContiguous = true) (hr : 1 ≤ c.mantissaRadix) (hm : c.requiredMantissaDigits = true)
+    (hrad : c.feats.powerOfTwo = false → c.mantissaRadix ≤ 10)
+    (hx : b.slc[b.index]? = some x) (hnd : charToDigit x c.mantissaRadix = none) (hdp : x ≠ o.dp)
+    (r : Number × Nat) : parseNumber c p o b neg fv ≠ .ok r :=
+  parseNumber_not_ok hb p o b neg fv x hx hnd hdp hrad hr hm r
+
+/-- valid options, mantissa radix ≤ 18 and a decimal point that is not one of `I i N n` satisfy `SpecialHeadsOK` -/
+theorem specialHeadsOK_of_valid (c : Cfg) (o : POpts) (hopt : optionsError o = none) (hr : c.mantissaRadix ≤ 18)
+    (hdp : o.dp ≠ 73 ∧ o.dp ≠ 105 ∧ o.dp ≠ 78 ∧ o.dp ≠ 110) : SpecialHeadsOK c o := by
+  have hxor : ∀ x y : Nat, (Nat.xor x y = 0 ∨ Nat.xor x y = 32) → x = y ∨ x = Nat.xor 32 y := by
+    intro x y h
+    have hc : Nat.xor (Nat.xor x y) y = x := by
+      show (x ^^^ y) ^^^ y = x
+      rw [Nat.xor_assoc, Nat.xor_self, Nat.xor_zero]
+    rcases h with h | h
+    · left; rw [h] at hc; simpa using hc.symm
+    · right; rw [h] at hc; exact hc.symm
+  have hnd : ∀ x, (x = 73 ∨ x = 105 ∨ x = 78 ∨ x = 110) → charToDigit x c.mantissaRadix = none ∧ x ≠ o.dp := by
+    intro x hx
+    refine ⟨?_, by rcases hx with rfl | rfl | rfl | rfl <;> omega⟩
+    unfold charToDigit charToValidDigit
+    rcases hx with rfl | rfl | rfl | rfl <;> simp <;> split <;> omega
+  have hhead : ∀ (str : List Nat) (a b : Nat), (a = 73 ∧ b = 105) ∨ (a = 78 ∧ b = 110) →
+      (str.isEmpty || !(str.head? = some a || str.head? = some b)) = false →
       ∃ y ys, str = y :: ys ∧ ∀ x, (Nat.xor x y = 0 ∨ Nat.xor x y = 32) →
-        charToDigit x c.mantissaRadix = none ∧ x ≠ o.dp) →
-    parseFloatSyntax c o true s = .ok (.special sp neg cnt) → cnt > 0 →
-    parseFloatSyntax c o false (s.take cnt) = .ok (.special sp neg cnt)
+        charToDigit x c.mantissaRadix = none ∧ x ≠ o.dp := by
+    intro str a b hab hs
+    cases str with
+    | nil => simp at hs
+    | cons y ys =>
+      refine ⟨y, ys, rfl, ?_⟩
+      intro x hx
+      simp only [List.isEmpty_cons, List.head?_cons, Option.some.injEq, Bool.false_or, Bool.not_eq_false',
+        Bool.or_eq_true, decide_eq_true_eq] at hs
+      apply hnd
+      rcases hxor x y hx with rfl | rfl
+      · rcases hab with ⟨rfl, rfl⟩ | ⟨rfl, rfl⟩ <;> rcases hs with rfl | rfl <;> simp
+      · rcases hab with ⟨rfl, rfl⟩ | ⟨rfl, rfl⟩ <;> rcases hs with rfl | rfl <;> decide
+  intro str hstr
+  unfold optionsError at hopt
+  simp only at hopt
+  split at hopt
+  · cases hopt
+  split at hopt
+  · cases hopt
+  split at hopt
+  · cases hopt
+  · next hnan =>
+    split at hopt
+    · cases hopt
+    · split at hopt
+      · cases hopt
+      · next hinf =>
+        rcases hstr with h | h | h
+        · rw [h] at hnan
+          simp only at hnan
+          by_cases hc : (str.isEmpty || !(decide (str.head? = some 78) || decide (str.head? = some 110))) = true
+          · rw [if_pos hc] at hnan; cases hnan
+          · exact hhead str 78 110 (Or.inr ⟨rfl, rfl⟩) (by simpa using hc)
+        · rw [h] at hinf
+          simp only at hinf
+          by_cases hc : (str.isEmpty || !(decide (str.head? = some 73) || decide (str.head? = some 105))) = true
+          · rw [if_pos hc] at hinf; cases hinf
+          · exact hhead str 73 105 (Or.inl ⟨rfl, rfl⟩) (by simpa using hc)
+        · rw [h] at hopt
+          simp only at hopt
+          split at hopt
+          · cases hopt
+          · next hinfy =>
+            by_cases hc : (str.isEmpty || !(decide (str.head? = some 73) || decide (str.head? = some 105))) = true
+            · rw [if_pos hc] at hinfy; cases hinfy
+            · exact hhead str 73 105 (Or.inl ⟨rfl, rfl⟩) (by simpa using hc)
+
+/-! ## (B) proved part 2: `partial_prefix` without a digit-separator byte (release build) -/
+
+/-- `parse_number` returns the same number and count on every truncation of the buffer at or beyond its count; the
+count is inside the buffer and at least one byte was consumed (includes base prefix/suffix and the many-digits
+re-parse) -/
+theorem parseNumber_prefix (c : Cfg) (p : Bool) (o : POpts) (b : Bytes) (neg fv : Bool) (r : Number)
+    (count : Nat) (hc : Proof.PNTotal.Rel c) (hb : c.bytesContiguous = true) (hr : 1 ≤ c.mantissaRadix)
+    (hm : c.requiredMantissaDigits = true) (hv : C12.Bytes.Valid b) (h : parseNumber c p o b neg fv = .ok (r, count)) :
+    b.index < count ∧ count ≤ b.slc.length ∧
+    ∀ n, count ≤ n → parseNumber c p o (trunc n b) neg fv = .ok (r, count) :=
+  parseNumber_trunc hc hb p o b neg fv r count hr hm hv h
+
+/-- **C11 (B), no digit-separator byte** (release build; with or without the `format` feature; base prefix/suffix and
+every syntax flag allowed; mantissa digits required): `partial s = ok p → complete (s.take (count p)) = ok p`.
+Numbers need no hypothesis on the options; specials need `SpecialHeadsOK`. -/
+theorem partial_prefix_contiguous (c : Cfg) (o : POpts) (s : List Nat) (p : Parsed)
+    (hc : Proof.PNTotal.Rel c) (hb : c.bytesContiguous = true) (hr : 1 ≤ c.mantissaRadix)
+    (hm : c.requiredMantissaDigits = true)
+    (hrad : c.feats.powerOfTwo = false → c.mantissaRadix ≤ 10) (hh : SpecialHeadsOK c o)
+    (h : parseFloatSyntax c o true s = .ok p) :
+    parseFloatSyntax c o false (s.take (pcount p)) = .ok p :=
+  partial_prefix_g hc hb o s true p hr hm hrad hh h
+
+/-- number results: every input, every options -/
+theorem partial_prefix_contiguous_number (c : Cfg) (o : POpts) (s : List Nat) (x : Number) (cnt : Nat)
+    (hc : Proof.PNTotal.Rel c) (hb : c.bytesContiguous = true) (hr : 1 ≤ c.mantissaRadix)
+    (hm : c.requiredMantissaDigits = true)
+    (h : parseFloatSyntax c o true s = .ok (.number x cnt)) :
+    parseFloatSyntax c o false (s.take cnt) = .ok (.number x cnt) :=
+  partial_prefix_number_g hc hb o s true x cnt hr hm h
+
+/-- special results: under `SpecialHeadsOK` (class (iii), `witness_B_radix24_nan`, shows that a hypothesis of this kind
+is necessary) -/
+theorem partial_prefix_contiguous_special (c : Cfg) (o : POpts) (s : List Nat) (sp : Special) (neg : Bool) (cnt : Nat)
+    (hc : Proof.PNTotal.Rel c) (hb : c.bytesContiguous = true) (hr : 1 ≤ c.mantissaRadix)
+    (hm : c.requiredMantissaDigits = true)
+    (hrad : c.feats.powerOfTwo = false → c.mantissaRadix ≤ 10) (hh : SpecialHeadsOK c o)
+    (h : parseFloatSyntax c o true s = .ok (.special sp neg cnt)) :
+    parseFloatSyntax c o false (s.take cnt) = .ok (.special sp neg cnt) :=
+  partial_prefix_special_g hc hb o s true sp neg cnt hr hm hrad hh h
+
+/-- the build without the `format` feature: `Rel`, contiguity and required mantissa digits are automatic -/
+theorem partial_prefix_noformat (c : Cfg) (o : POpts) (s : List Nat) (p : Parsed)
+    (hf : c.feats.format = false) (hd : c.debug = false) (hr : 1 ≤ c.mantissaRadix)
+    (hrad : c.feats.powerOfTwo = false → c.mantissaRadix ≤ 10) (hh : SpecialHeadsOK c o)
+    (h : parseFloatSyntax c o true s = .ok p) :
+    parseFloatSyntax c o false (s.take (pcount p)) = .ok p :=
+  partial_prefix_contiguous c o s p (rel_nf hf hd) (Proof.PNTotal.notFormat_bytesContig hf) hr
+    (by simp [Cfg.requiredMantissaDigits, Cfg.flag, hf]) hrad hh h
+
+theorem partial_prefix_noformat_number (c : Cfg) (o : POpts) (s : List Nat) (x : Number) (cnt : Nat)
+    (hf : c.feats.format = false) (hd : c.debug = false) (hr : 1 ≤ c.mantissaRadix)
+    (h : parseFloatSyntax c o true s = .ok (.number x cnt)) :
+    parseFloatSyntax c o false (s.take cnt) = .ok (.number x cnt) :=
+  partial_prefix_contiguous_number c o s x cnt (rel_nf hf hd) (Proof.PNTotal.notFormat_bytesContig hf) hr
+    (by simp [Cfg.requiredMantissaDigits, Cfg.flag, hf]) h
+
+example : parseFloatSyntax ⟨{}, Format.standard, false⟩ {} true [49, 46, 53, 120]
+    = .ok (.number ⟨15, -1, false, false, [49], some [53], 0⟩ 3) := by decide
+
+example : parseFloatSyntax ⟨{}, Format.standard, false⟩ {} true [45, 110, 97, 110, 53] = .ok (.special .nan true 4) := by
+  decide
+
+/-- non-vacuity of the hypotheses: the STANDARD format with default options -/
+example : SpecialHeadsOK ⟨{}, Format.standard, false⟩ {} :=
+  specialHeadsOK_of_valid _ _ (by decide) (by decide) (by decide)
+
+/-- non-vacuity with the `format` feature: C hex-float strings with base prefix `x` (`prefix_x_hexfloat`, radix 16,
+exponent `p`): "0x1.8p1z" → count 7 -/
+example : (⟨featsRadixFormat, ⟨0xa02100078000000000000000000000c⟩, false⟩ : Cfg).bytesContiguous = true ∧
+    (⟨featsRadixFormat, ⟨0xa02100078000000000000000000000c⟩, false⟩ : Cfg).requiredMantissaDigits = true ∧
+    parseFloatSyntax ⟨featsRadixFormat, ⟨0xa02100078000000000000000000000c⟩, false⟩ { exp := 112 } true
+      [48, 120, 49, 46, 56, 112, 49, 122] = .ok (.number ⟨24, -3, false, false, [49], some [56], 1⟩ 7) := by
+  decide +kernel
+
+/-! ## (B) at the API level (`parseFloatModel`, the harness line) -/
+
+/-- when the validation of `api.rs` passes, the API result is the rendered syntax result -/
+theorem parseFloatModel_of_valid (feats : Features) (fmt : Format) (o : POpts) (p : Bool) (f : Fmt) (s : List Nat)
+    (debug : Bool) (h1 : optionsError o = none) (h2 : formatError feats fmt = none)
+    (h3 : isValidOptionsPunctuation feats fmt o.exp o.dp = true) (h4 : checkRadix feats fmt = true) :
+    parseFloatModel feats fmt o p f s debug =
+      match parseFloatSyntax ⟨feats, fmt, debug⟩ o p s true with
+      | .ok q => renderParsed ⟨feats, fmt, debug⟩ f p q
+      | .error e => renderErr e := by
+  unfold parseFloatModel
+  simp only [h1, h2, h3, h4, Option.isSome_none, Option.isNone_none, Bool.false_eq_true, if_false, Bool.not_true]
+  rfl
+
+/-- C11 (B) for `parse_partial_with_options` / `parse_with_options` (release build, valid format and options, no digit
+separator in the format, mantissa digits required, mantissa radix ≤ 18, decimal point not one of `I i N n`): whatever
+the partial parser returns as `(value, count)`, the complete parser returns the same value on the first `count` bytes -/
+theorem partial_prefix_model (feats : Features) (fmt : Format) (o : POpts) (f : Fmt) (s : List Nat) (q : Parsed)
+    (hfeat : feats.radix = true → feats.powerOfTwo = true)
+    (hb : (⟨feats, fmt, false⟩ : Cfg).bytesContiguous = true)
+    (hm : (⟨feats, fmt, false⟩ : Cfg).requiredMantissaDigits = true)
+    (h1 : optionsError o = none) (h2 : formatError feats fmt = none)
+    (h3 : isValidOptionsPunctuation feats fmt o.exp o.dp = true) (h4 : checkRadix feats fmt = true)
+    (hr18 : fmt.mantissaRadix ≤ 18) (hdp : o.dp ≠ 73 ∧ o.dp ≠ 105 ∧ o.dp ≠ 78 ∧ o.dp ≠ 110)
+    (h : parseFloatSyntax ⟨feats, fmt, false⟩ o true s = .ok q) :
+    parseFloatModel feats fmt o true f s = renderParsed ⟨feats, fmt, false⟩ f true q ∧
+    parseFloatModel feats fmt o false f (s.take (pcount q)) = renderParsed ⟨feats, fmt, false⟩ f false q := by
+  have hvr : isValidRadix feats fmt.mantissaRadix = true := by
+    cases hc : isValidRadix feats fmt.mantissaRadix with
+    | true => rfl
+    | false => simp [formatError, hc] at h2
+  have hr : 1 ≤ fmt.mantissaRadix ∧ (feats.powerOfTwo = false → fmt.mantissaRadix ≤ 10) := by
+    unfold isValidRadix at hvr
+    split at hvr
+    · next hrx =>
+      simp only [Bool.and_eq_true, decide_eq_true_eq] at hvr
+      exact ⟨by omega, fun hp => by rw [hfeat hrx] at hp; cases hp⟩
+    · split at hvr
+      · next hp =>
+        simp only [Bool.or_eq_true, decide_eq_true_eq] at hvr
+        exact ⟨by omega, fun hp2 => by rw [hp] at hp2; cases hp2⟩
+      · simp only [decide_eq_true_eq] at hvr
+        exact ⟨by omega, fun _ => by omega⟩
+  have hrel : Proof.PNTotal.Rel ⟨feats, fmt, false⟩ := Proof.PNTotal.rel_of_valid _ rfl (by simp [h2])
+  have hh : SpecialHeadsOK ⟨feats, fmt, false⟩ o := specialHeadsOK_of_valid _ _ h1 hr18 hdp
+  have hc := partial_prefix_contiguous ⟨feats, fmt, false⟩ o s q hrel hb hr.1 hm hr.2 hh h
+  rw [parseFloatModel_of_valid feats fmt o true f s false h1 h2 h3 h4,
+    parseFloatModel_of_valid feats fmt o false f _ false h1 h2 h3 h4, h, hc]
+  exact ⟨rfl, rfl⟩
+
+/-- non-vacuity: default features, STANDARD format: "1.5x" → (1.5, 3) and "1.5" → 1.5 -/
+example : parseFloatModel {} Format.standard {} true f64 [49, 46, 53, 120] = "ok 3ff8000000000000 3" ∧
+    parseFloatModel {} Format.standard {} false f64 [49, 46, 53] = "ok 3ff8000000000000 -" := by decide +kernel
 
 end LexVerif.Props.C11
